@@ -277,6 +277,8 @@ class Body:
                     tags[d] = "Continue" if at in ("Ok", "Some") else "Break"
                 elif nm.endswith("FromResidual::from_residual"):
                     tags[d] = "Err"
+                elif re.search(r"result::Result::<.*>::(map|map_err|inspect|inspect_err)$|option::Option::<.*>::(map|inspect|filter_map_never)$", nm) and at in ("Ok", "Err", "Some", "None"):
+                    tags[d] = at            # the payload changes, the variant does not
                 else:
                     tags.pop(d, None)
             elif t["k"] == "switch":
